@@ -28,6 +28,9 @@
 //!          | (6) drop the old instance
 //!          | (7 (chunk ...)) append while the roller is set to fail: if the policy calls
 //!            Roll::roll it returns Err without touching the directory
+//!          | (8) install a real archive write fault: the newest archive slot arch.<base>.<ext>
+//!            becomes a symlink to /dev/full (every write fails with ENOSPC); symlinks are
+//!            not listed in snapshots | (9) remove that symlink
 //! result: one entry per op (entry 0 = the initial build):
 //!   ( ((shown disk requested gone) ...) ((kind idx bytes) ...) errors [order [pending]] )
 //!   consultations seen by a Policy wrapped around the real CompoundPolicy (requested =
@@ -230,6 +233,7 @@ impl Ctx {
                 for e in rd.flatten() {
                     let p = e.path();
                     match e.metadata() {
+                        Ok(m) if m.file_type().is_symlink() => {}
                         Ok(m) if m.is_dir() => walk(base, &p, out),
                         Ok(m) => out.push((
                             p.strip_prefix(base).unwrap().to_string_lossy().to_string(),
@@ -482,6 +486,18 @@ pub fn run(case: &Val) -> Val {
             }
             6 => {
                 drop(old.take());
+            }
+            8 | 9 => {
+                let r = ctx.roller.l();
+                let ext = if r[3].b() { "gz" } else { "log" };
+                let slot = ctx.dir.join(format!("arch.{}.{}", r[1].n(), ext));
+                if o[0].n() == 8 {
+                    if std::os::unix::fs::symlink("/dev/full", &slot).is_err() {
+                        errors += 1;
+                    }
+                } else if std::fs::symlink_metadata(&slot).map(|m| m.file_type().is_symlink()).unwrap_or(false) {
+                    let _ = std::fs::remove_file(&slot);
+                }
             }
             1 => {
                 drop(old.take());
